@@ -53,10 +53,47 @@ def cases(tier):
         for pre in ((0, 15) if q else range(16)):
             for fpart in range(3):
                 out.append((4, di, di % len(KINDS), 1, False, pre, fpart))
+    out.append(('namemode-delete', 0, 0, 0, False, True))
     return out
 
 
+def namemode_delete(case):
+    """results are stored under config names (parameter_mode=False): deleting the data of a forced task of config
+    `model` must not touch the results of config `model.v2` (or `model_v2`, `mode`) in the same directory"""
+    hist.setup(full=False)
+
+    def harness(ctx):
+        from taskchain import Config, Chain
+        edges, spec = family.dag_specs(2)[1]
+        kinds = KINDS[ctx.choice('kinds', len(KINDS))]
+        spec = [dict(t, data=kinds[j]) for j, t in enumerate(spec)]
+        world = hist.World(spec, [{}])
+        fs = world.fs
+        names = ['model', 'model.v2', 'model_v2', 'mode']
+        chains = {}
+        for nm in names:
+            d = {'tasks': list(world.classes.values())}
+            chains[nm] = Chain(Config(fs.path('/data'), name=nm, data=d), parameter_mode=False)
+            for t in ('t0', 't1'):
+                chains[nm].tasks[t].value
+        victim = names[ctx.choice('forced_config', len(names))]
+        which = ['t0', 't1'][ctx.choice('task', 2)]
+        chains[victim].force(which, delete_data=True)
+        info = {'mode': 'name', 'forced_config': victim, 'task': which, 'kinds': kinds[:2]}
+        for nm in names:
+            fresh = Chain(Config(fs.path('/data'), name=nm, data={'tasks': list(world.classes.values())}), parameter_mode=False)
+            for t in ('t0', 't1'):
+                persists = kinds[int(t[1])] != 'mem'
+                gone = nm == victim and (t == which or (which == 't0' and t == 't1'))
+                exp = persists and not gone
+                ctx.check_concrete(fresh.tasks[t].has_data == exp, 'deleted-exactly',
+                                   dict(info, config=nm, looked_at=t, has_data=fresh.tasks[t].has_data, expected=exp))
+    return harness
+
+
 def make_harness(case, tier):
+    if case[0] == 'namemode-delete':
+        return namemode_delete(case)
     n, di, ki, h, second, allpre = case[:6]
     fpart = case[6] if len(case) > 6 else None
     hist.setup(full=False)
